@@ -308,7 +308,7 @@ def run(c):
     lim = []
     for i in range(6 if c.quick() else 40):
         mem = r.choice([4, 8, 16, 64, 1000, 1 << 18]) * 4096 * r.randint(1, 50)
-        pids = r.randint(1, 5000)
+        pids = r.choice([0, 1, r.randint(1, 5000), r.randint(1, 5000), 4194304])
         period = r.choice([100000, 50000, 1000000, 1000])
         quota = r.randint(1000, 4 * period)
         ops.append({"op": "new", "h": 0, "name": "g%d" % i, "as": i + 1})
@@ -326,7 +326,7 @@ def run(c):
             ops.append(op_)
             lim.append((memx, pids, quota, period, cs))
             mem = r.choice([4, 8, 16, 64, 1000, 1 << 18]) * 4096 * r.randint(1, 50)
-            pids = r.randint(1, 5000)
+            pids = r.choice([0, 1, r.randint(1, 5000), r.randint(1, 5000), 4194304])
             period = r.choice([100000, 100000, 50000, 1000000, 1000])
             quota = r.randint(1000, 4 * period)
         # another handle on the same group (opened, created again under the same name, or created again through the parent): the limits stay
@@ -416,7 +416,8 @@ def run(c):
     for _ in range(nparse):
         lines = []
         for _ in range(r.randint(0, 6)):
-            k = r.choice(["user_usec", "system_usec", "nr_periods", "usage_usec", "usage_usec", "throttled_usec", "usage_usecs", ""])
+            # field names of which usage_usec is a proper suffix / prefix come before and after the real line
+            k = r.choice(["user_usec", "system_usec", "nr_periods", "usage_usec", "usage_usec", "throttled_usec", "usage_usecs", "", "core_sched.usage_usec", "xusage_usec"])
             nf = r.choice([1, 1, 1, 1, 0, 2])
             vals = [str(r.choice(big)) if r.random() < 0.85 else r.choice(["abc", "1e3", "0x10", "12.5"]) for _ in range(nf)]
             lines.append(" ".join(([k] if k else []) + vals))
